@@ -359,12 +359,12 @@ theorem withRead_spec {α : Type} {d : Nat} (ih : ValIH cx d) {rb : RegBase} {f 
     simp [regBytes, hl', ha', hl0, hp, hr]
   · simp [hm] at hbs
 
-theorem intValueF_spec {d : Nat} (ih : ValIH cx d) (hnf : NoFormulaNodes cx) {n : NodeId} {s : S F} {v : Int}
+theorem intValueF_spec {d : Nat} (ih : ValIH cx d) {n : NodeId} (hn : NoFormulaAt cx n) {s : S F} {v : Int}
     (h : R.val (intValueF cx (execRec cx d) n) s = .ok v) : (valStep cx (valSem cx d)).int n s = some v := by
   unfold intValueF at h
   simp only [valStep]
   try spec_norm
-  have hn := hnf n
+  unfold NoFormulaAt at hn
   cases hg : cx.graph n with
   | none => simp [hg] at h
   | some nd =>
@@ -379,12 +379,12 @@ theorem intValueF_spec {d : Nat} (ih : ValIH cx d) (hnf : NoFormulaNodes cx) {n 
       have hl' := immIntValue_spec ih (by simpa [regLength] using hl)
       simp [hb, resOpt_ok hf, hl', resOpt_ok h2]
 
-theorem floatValueF_spec {d : Nat} (ih : ValIH cx d) (hnf : NoFormulaNodes cx) {n : NodeId} {s : S F} {v : F}
+theorem floatValueF_spec {d : Nat} (ih : ValIH cx d) {n : NodeId} (hn : NoFormulaAt cx n) {s : S F} {v : F}
     (h : R.val (floatValueF cx (execRec cx d) n) s = .ok v) : (valStep cx (valSem cx d)).float n s = some v := by
   unfold floatValueF at h
   simp only [valStep]
   try spec_norm
-  have hn := hnf n
+  unfold NoFormulaAt at hn
   cases hg : cx.graph n with
   | none => simp [hg] at h
   | some nd =>
@@ -431,8 +431,8 @@ theorem valIH (cx : Ctx F E) (hnf : NoFormulaNodes cx) : ∀ d, ValIH cx d
   | d + 1 => by
     have ih := valIH cx hnf d
     constructor <;> intro n s v h <;> simp only [execRec, step] at h
-    · exact intValueF_spec ih hnf h
-    · exact floatValueF_spec ih hnf h
+    · exact intValueF_spec ih (hnf _) h
+    · exact floatValueF_spec ih (hnf _) h
     · exact strValueF_spec ih h
     · exact enumCurrentValueF_spec ih h
 
@@ -600,15 +600,16 @@ theorem regBytes_exec {α : Type} {d : Nat} (ih : SpecIH cx d) {rb : RegBase} {f
           allocLen, hl0, readAndCache, lenMatches, hnl, hpr]
   · simp [hl0] at h
 
-theorem intValueF_exec {d : Nat} (ih : SpecIH cx d) {n : NodeId} {s : S F} {v : Int}
+theorem intValueF_exec {d : Nat} (ih : SpecIH cx d) {n : NodeId} (hn : NoFormulaAt cx n) {s : S F} {v : Int}
     (h : (valStep cx (valSem cx d)).int n s = some v) : R.val (intValueF cx (execRec cx d) n) s = .ok v := by
   simp only [valStep] at h
   try spec_norm
   unfold intValueF
+  unfold NoFormulaAt at hn
   cases hg : cx.graph n with
   | none => simp [hg] at h
   | some nd =>
-    cases nd <;> simp only [hg] at h ⊢ <;> try (simp at h; done)
+    cases nd <;> simp only [hg] at h hn ⊢ <;> try (simp at h; done)
     · exact vkInt_exec ih h
     · simp only [Option.bind_eq_some_iff] at h
       obtain ⟨bs, hb, hf⟩ := h
@@ -618,15 +619,16 @@ theorem intValueF_exec {d : Nat} (ih : SpecIH cx d) {n : NodeId} {s : S F} {v : 
       rw [usizeOf_eq] at hm
       simp [maskedValue, regBytes_exec ih hb, resOpt_some hx, regLength, immInt_exec ih hl, resOpt_some hm]
 
-theorem floatValueF_exec {d : Nat} (ih : SpecIH cx d) {n : NodeId} {s : S F} {v : F}
+theorem floatValueF_exec {d : Nat} (ih : SpecIH cx d) {n : NodeId} (hn : NoFormulaAt cx n) {s : S F} {v : F}
     (h : (valStep cx (valSem cx d)).float n s = some v) : R.val (floatValueF cx (execRec cx d) n) s = .ok v := by
   simp only [valStep] at h
   try spec_norm
   unfold floatValueF
+  unfold NoFormulaAt at hn
   cases hg : cx.graph n with
   | none => simp [hg] at h
   | some nd =>
-    cases nd <;> simp only [hg] at h ⊢ <;> try (simp at h; done)
+    cases nd <;> simp only [hg] at h hn ⊢ <;> try (simp at h; done)
     · exact vkFloat_exec ih h
     · simp only [Option.bind_eq_some_iff] at h
       obtain ⟨bs, hb, hf⟩ := h
@@ -664,22 +666,23 @@ theorem enumCurrentValueF_exec {d : Nat} (ih : SpecIH cx d) {n : NodeId} {s : S 
     cases nd <;> simp only [hg] at h ⊢ <;> try (simp at h; done)
     exact sonInt_exec ih h
 
-/-- wherever the reference semantics assigns a value, the interpreter returns it -/
-theorem specIH (cx : Ctx F E) : ∀ d, SpecIH cx d
+/-- wherever the reference semantics assigns a value, the interpreter returns it (graphs
+without formula nodes; the general case is `fullIH` in Proofs/C03SpecFormula.lean) -/
+theorem specIH (cx : Ctx F E) (hnf : NoFormulaNodes cx) : ∀ d, SpecIH cx d
   | 0 => by constructor <;> intro n s v h <;> simp [valSem, ValSem.none] at h
   | d + 1 => by
-    have ih := specIH cx d
+    have ih := specIH cx hnf d
     constructor <;> intro n s v h <;> simp only [valSem] at h <;> simp only [execRec, step]
-    · exact intValueF_exec ih h
-    · exact floatValueF_exec ih h
+    · exact intValueF_exec ih (hnf _) h
+    · exact floatValueF_exec ih (hnf _) h
     · exact strValueF_exec ih h
     · exact enumCurrentValueF_exec ih h
 
 /-! ### the remaining read interfaces (Boolean, current entry, raw register) -/
 
-theorem boolValueF_iff (cx : Ctx F E) (hnf : NoFormulaNodes cx) (d : Nat) (n : NodeId) (s : S F) (b : Bool) :
+theorem boolValueF_iffI {d : Nat} (ihB : ValIH cx d) (ihA : SpecIH cx d) (n : NodeId) (s : S F) (b : Bool) :
     R.val (boolValueF cx (execRec cx d) n) s = .ok b ↔ specBool cx d n s = some b := by
-  unfold boolValueF specBool
+  unfold boolValueF specBool specBoolP
   cases hg : cx.graph n with
   | none => simp
   | some nd =>
@@ -689,7 +692,7 @@ theorem boolValueF_iff (cx : Ctx F E) (hnf : NoFormulaNodes cx) (d : Nat) (n : N
     constructor
     · intro h
       obtain ⟨v, hv, h⟩ := Res.bind_eq_ok h
-      rw [slotOrNodeIntValue_spec (valIH cx hnf d) hv]
+      rw [slotOrNodeIntValue_spec ihB hv]
       simp only [Option.bind_some]
       by_cases h1 : (v == onV) = true
       · simp [h1] at h ⊢; exact h
@@ -699,7 +702,7 @@ theorem boolValueF_iff (cx : Ctx F E) (hnf : NoFormulaNodes cx) (d : Nat) (n : N
     · intro h
       simp only [Option.bind_eq_some_iff] at h
       obtain ⟨v, hv, h⟩ := h
-      rw [sonInt_exec (specIH cx d) hv]
+      rw [sonInt_exec ihA hv]
       simp only [Res.bind_ok]
       by_cases h1 : (v == onV) = true
       · simp [h1] at h ⊢; exact h
@@ -707,9 +710,13 @@ theorem boolValueF_iff (cx : Ctx F E) (hnf : NoFormulaNodes cx) (d : Nat) (n : N
         · simp [h1, h2] at h ⊢; exact h
         · simp [h1, h2] at h
 
-theorem enumCurrentEntryF_iff (cx : Ctx F E) (hnf : NoFormulaNodes cx) (d : Nat) (n : NodeId) (s : S F) (e : NodeId) :
+theorem boolValueF_iff (cx : Ctx F E) (hnf : NoFormulaNodes cx) (d : Nat) (n : NodeId) (s : S F) (b : Bool) :
+    R.val (boolValueF cx (execRec cx d) n) s = .ok b ↔ specBool cx d n s = some b :=
+  boolValueF_iffI (valIH cx hnf d) (specIH cx hnf d) n s b
+
+theorem enumCurrentEntryF_iffI {d : Nat} (ihB : ValIH cx d) (ihA : SpecIH cx d) (n : NodeId) (s : S F) (e : NodeId) :
     R.val (enumCurrentEntryF cx (execRec cx d) n) s = .ok e ↔ specCurrentEntry cx d n s = some e := by
-  unfold enumCurrentEntryF specCurrentEntry
+  unfold enumCurrentEntryF specCurrentEntry specCurrentEntryP
   simp only [firstEntryWithValue_eq]
   cases hg : cx.graph n with
   | none => simp
@@ -721,21 +728,25 @@ theorem enumCurrentEntryF_iff (cx : Ctx F E) (hnf : NoFormulaNodes cx) (d : Nat)
     · intro h
       obtain ⟨v, hv, h⟩ := Res.bind_eq_ok h
       obtain ⟨o, ho, h⟩ := Res.bind_eq_ok h
-      rw [slotOrNodeIntValue_spec (valIH cx hnf d) hv]
+      rw [slotOrNodeIntValue_spec ihB hv]
       cases o with
       | none => simp at h
       | some e' => simp at h; simp [ho, resOpt, h]
     · intro h
       simp only [Option.bind_eq_some_iff] at h
       obtain ⟨v, hv, h⟩ := h
-      rw [sonInt_exec (specIH cx d) hv]
+      rw [sonInt_exec ihA hv]
       simp only [Res.bind_ok]
       cases hf : findEntryByValue cx entries v with
       | ok o => cases o <;> simp [hf, resOpt] at h ⊢; exact h
       | err x => simp [hf, resOpt] at h
       | panic => simp [hf, resOpt] at h
 
-theorem regAddressF_iff (cx : Ctx F E) (hnf : NoFormulaNodes cx) (d : Nat) (n : NodeId) (s : S F) (a : Int) :
+theorem enumCurrentEntryF_iff (cx : Ctx F E) (hnf : NoFormulaNodes cx) (d : Nat) (n : NodeId) (s : S F) (e : NodeId) :
+    R.val (enumCurrentEntryF cx (execRec cx d) n) s = .ok e ↔ specCurrentEntry cx d n s = some e :=
+  enumCurrentEntryF_iffI (valIH cx hnf d) (specIH cx hnf d) n s e
+
+theorem regAddressF_iffI {d : Nat} (ihB : ValIH cx d) (ihA : SpecIH cx d) (n : NodeId) (s : S F) (a : Int) :
     R.val (regAddressF cx (execRec cx d) n) s = .ok a ↔ specRegAddress cx d n s = some a := by
   unfold regAddressF specRegAddress
   cases hg : cx.graph n with
@@ -746,9 +757,9 @@ theorem regAddressF_iff (cx : Ctx F E) (hnf : NoFormulaNodes cx) (d : Nat) (n : 
     | none => simp
     | some rb =>
       simp only [regAddress, effectiveAddrs_eq]
-      exact ⟨sumAddrs_spec (valIH cx hnf d) _ _ _, addrSum_exec (specIH cx d) _ _ _⟩
+      exact ⟨sumAddrs_spec ihB _ _ _, addrSum_exec ihA _ _ _⟩
 
-theorem regLengthF_iff (cx : Ctx F E) (hnf : NoFormulaNodes cx) (d : Nat) (n : NodeId) (s : S F) (l : Int) :
+theorem regLengthF_iffI {d : Nat} (ihB : ValIH cx d) (ihA : SpecIH cx d) (n : NodeId) (s : S F) (l : Int) :
     R.val (regLengthF cx (execRec cx d) n) s = .ok l ↔ specRegLength cx d n s = some l := by
   unfold regLengthF specRegLength
   cases hg : cx.graph n with
@@ -759,6 +770,13 @@ theorem regLengthF_iff (cx : Ctx F E) (hnf : NoFormulaNodes cx) (d : Nat) (n : N
     | none => simp
     | some rb =>
       simp only [regLength]
-      exact ⟨immIntValue_spec (valIH cx hnf d), immInt_exec (specIH cx d)⟩
+      exact ⟨immIntValue_spec ihB, immInt_exec ihA⟩
+
+theorem regAddressF_iff (cx : Ctx F E) (hnf : NoFormulaNodes cx) (d : Nat) (n : NodeId) (s : S F) (a : Int) :
+    R.val (regAddressF cx (execRec cx d) n) s = .ok a ↔ specRegAddress cx d n s = some a :=
+  regAddressF_iffI (valIH cx hnf d) (specIH cx hnf d) n s a
+theorem regLengthF_iff (cx : Ctx F E) (hnf : NoFormulaNodes cx) (d : Nat) (n : NodeId) (s : S F) (l : Int) :
+    R.val (regLengthF cx (execRec cx d) n) s = .ok l ↔ specRegLength cx d n s = some l :=
+  regLengthF_iffI (valIH cx hnf d) (specIH cx hnf d) n s l
 
 end CamVerif.C03
